@@ -394,3 +394,74 @@ func NewError(k ErrKind, tag string) error {
 	}
 	return &InjectedError{Tag: tag}
 }
+
+// ---------------------------------------------------------------------------
+// Writer kinds: an encoder may special-case what a writer can do.
+
+// WKind selects a writer implementation around the scripted Writer.
+type WKind int
+
+const (
+	WRaw          WKind = iota // the scripted writer itself
+	WBufio16                   // *bufio.Writer with a 16-byte buffer over it (flushed afterwards)
+	WBufio4096                 // *bufio.Writer with a 4096-byte buffer
+	WRich                      // own type offering WriteString, WriteByte and ReadFrom next to Write
+	WBytesBuffer               // *bytes.Buffer
+	WStringBuilder             // *strings.Builder
+	NWKinds
+)
+
+func (k WKind) String() string {
+	return [...]string{"raw", "bufio16", "bufio4096", "rich", "bytes.Buffer", "strings.Builder"}[k]
+}
+
+// RichWriter offers the optional writer interfaces honestly; everything
+// ends up in the scripted writer, which does the accounting and the faults.
+type RichWriter struct{ W *Writer }
+
+func (r *RichWriter) Write(p []byte) (int, error)       { return r.W.Write(p) }
+func (r *RichWriter) WriteString(s string) (int, error) { return r.W.Write([]byte(s)) }
+func (r *RichWriter) WriteByte(c byte) error            { _, err := r.W.Write([]byte{c}); return err }
+func (r *RichWriter) ReadFrom(src io.Reader) (int64, error) {
+	var total int64
+	buf := make([]byte, 512)
+	for {
+		n, err := src.Read(buf)
+		if n > 0 {
+			m, werr := r.W.Write(buf[:n])
+			total += int64(m)
+			if werr != nil {
+				return total, werr
+			}
+		}
+		if err == io.EOF {
+			return total, nil
+		}
+		if err != nil {
+			return total, err
+		}
+	}
+}
+
+// WrapWriter returns the writer to hand to the code under test and a
+// function that flushes it and returns everything that was written.
+func WrapWriter(k WKind, w *Writer) (io.Writer, func() []byte) {
+	switch k {
+	case WBufio16, WBufio4096:
+		size := 16
+		if k == WBufio4096 {
+			size = 4096
+		}
+		bw := bufio.NewWriterSize(w, size)
+		return bw, func() []byte { bw.Flush(); return w.Buf }
+	case WRich:
+		return &RichWriter{w}, func() []byte { return w.Buf }
+	case WBytesBuffer:
+		var b bytes.Buffer
+		return &b, func() []byte { return b.Bytes() }
+	case WStringBuilder:
+		var b strings.Builder
+		return &b, func() []byte { return []byte(b.String()) }
+	}
+	return w, func() []byte { return w.Buf }
+}
